@@ -84,6 +84,11 @@ class Builder:
             tgt = self.target(x["of"])
             inst = h.InstanceArray(of=tgt, n=x["n"], name=x["name"]) if x["n"] > 0 else h.Instance(of=tgt, name=x["name"])
             m.add(inst)
+        # earlier connections that are replaced afterwards (connection histories): the final mapping is what was written
+        for x in md["insts"]:
+            inst = m.get(x["name"])
+            for port, e in x.get("pre", []):
+                inst.connect(port, self.expr(m, mi, e))
         for x in md["insts"]:
             inst = m.get(x["name"])
             for port, e in x["conns"]:
